@@ -162,7 +162,7 @@ def stored_ctor_params(ctx, c: Class) -> Dict[str, str]:
     return out
 
 
-def _own_value(method: Func, e: ast.AST, param: str, attr: str, defs, depth=0) -> Tuple[bool, str]:
+def _own_value(method: Func, e: ast.AST, param: str, attr: str, defs, depth=0, ctx=None) -> Tuple[bool, str]:
     """Is `e` the instance's own value of the field (self.param / self._attr), a deep copy of it,
     a value unpacked from self._copy(), or `x if x is not None else self.param`?"""
     s = method.self_name
@@ -170,33 +170,42 @@ def _own_value(method: Func, e: ast.AST, param: str, attr: str, defs, depth=0) -
         return False, "too deep"
     if isinstance(e, ast.Attribute) and isinstance(e.value, ast.Name) and e.value.id == s:
         return (e.attr in (param, attr, "_" + param), "self.%s" % e.attr)
+    if isinstance(e, ast.Call) and dotted(e.func) == "getattr" and len(e.args) == 2 and isinstance(e.args[0], ast.Name) and e.args[0].id == s \
+            and isinstance(e.args[1], ast.Constant) and isinstance(e.args[1].value, str):
+        return (e.args[1].value in (param, attr, "_" + param), "getattr(self, %r)" % e.args[1].value)
+    if isinstance(e, ast.Call) and ctx is not None and (e.args or e.keywords):
+        # a small private helper (nested function / _method with one returned expression) is seen through
+        from .symsum import expand_calls
+        e2 = expand_calls(ctx, method, e)
+        if unparse(e2) != unparse(e):
+            return _own_value(method, e2, param, attr, defs, depth + 1, ctx)
     if isinstance(e, ast.Call):
         dn = dotted(e.func) or ""
         if dn.split(".")[-1] in ("deepcopy", "copy") and e.args:
-            return _own_value(method, e.args[0], param, attr, defs, depth + 1)
+            return _own_value(method, e.args[0], param, attr, defs, depth + 1, ctx)
         if isinstance(e.func, ast.Attribute) and isinstance(e.func.value, ast.Name) and e.func.value.id == s and not e.args:
             # self._copy() style helpers return own values
             return True, "self.%s()" % e.func.attr
     if isinstance(e, ast.IfExp):
         # x if x is not None else self.x   |   self.x if x is None else x
         for own, other in ((e.body, e.orelse), (e.orelse, e.body)):
-            ok, _ = _own_value(method, own, param, attr, defs, depth + 1)
+            ok, _ = _own_value(method, own, param, attr, defs, depth + 1, ctx)
             if ok and isinstance(other, ast.Name) and other.id in method.params:
                 return True, "caller override defaulting to own value"
         return False, unparse(e)
     if isinstance(e, ast.Name):
         if e.id in defs:
-            return _own_value(method, defs[e.id], param, attr, defs, depth + 1)
+            return _own_value(method, defs[e.id], param, attr, defs, depth + 1, ctx)
         # tuple-unpacked from self._copy()
         for n in own_nodes(method.node):
             if isinstance(n, ast.Assign) and len(n.targets) == 1 and isinstance(n.targets[0], ast.Tuple):
                 if any(isinstance(t, ast.Name) and t.id == e.id for t in n.targets[0].elts):
-                    return _own_value(method, n.value, param, attr, defs, depth + 1)
+                    return _own_value(method, n.value, param, attr, defs, depth + 1, ctx)
         # reassigned parameter with the defaulting idiom: p = self.p if p is None else p
         binds = [n for n in own_nodes(method.node) if isinstance(n, ast.Assign) and len(n.targets) == 1
                  and isinstance(n.targets[0], ast.Name) and n.targets[0].id == e.id]
         if len(binds) == 1:
-            return _own_value(method, binds[0].value, param, attr, defs, depth + 1)
+            return _own_value(method, binds[0].value, param, attr, defs, depth + 1, ctx)
         if e.id in method.params:
             d = method.param_defaults().get(e.id)
             return False, "parameter '%s' (default %s) never defaults to the instance's value" % (e.id, unparse(d) if d is not None else "none")
@@ -221,7 +230,7 @@ def check_field_completeness(ctx, method: Func, cls: Class, call: ast.Call, targ
             else:
                 yield (p, False, "the slot filler has no parameter '%s', so self.%s cannot be carried over" % (p, attr))
             continue
-        ok, why = _own_value(method, binding[p], p, attr, defs)
+        ok, why = _own_value(method, binding[p], p, attr, defs, 0, ctx)
         yield (p, ok, why)
 
 
